@@ -31,6 +31,8 @@ RUNS = {
     ],
     "C05": [
         {"name": "K4-session-lifecycle", "mode": "k4", "budget": (6000, 150000), "nontrivial": r"close=|^rtyp=(?!7 )", "keyfn": "k4", "monitor": "lifecycle"},
+        {"name": "K7-concurrent-lifecycle", "mode": "k7storm", "budget": (60, 2500), "nontrivial": r".", "keyfn": "generic"},
+        {"name": "K7-scenarios", "mode": "k7scen", "budget": (8, 150), "nontrivial": r".", "keyfn": "k7scen"},
     ],
     "C09": [
         {"name": "K4-session-names", "mode": "k4", "budget": (6000, 150000), "nontrivial": r" c\d+=", "keyfn": "k4", "monitor": "names"},
